@@ -155,18 +155,19 @@ def gen_history(rf, nscripts, kinds, steps, overlap, sweep=None):
     return eps, sorted(faults)
 
 
-def generate(seed, tier, index):
-    base = Stream(ID, seed, tier, index)
+def generate(seed, tier, index, pid=ID, spec_p=None, p_overlap=0.06, script_p=None):
+    base = Stream(pid, seed, tier, index)
     rs, ru, rk, rf = base.sub("spec"), base.sub("units"), base.sub("script"), base.sub("sched")
-    overlap = rf.chance(0.06)
+    overlap = rf.chance(p_overlap)
+    spec_p = spec_p or SPEC_P
+    script_p = script_p or {"steps": (2, 30), "allow_empty_ts": True, "p_seed": 1.0}
     nscripts = rf.randint(1, 3)
     scripts, kinds, steps = [], [], []
     same_dims_spec = None
     for j in range(nscripts):
         kind = rs.sub(j).choice(C.KINDS)
         spec = same_dims_spec if (overlap and same_dims_spec is not None) else None
-        e = C.make_script_entry(rs.sub(j), ru.sub(j), rk.sub(j), kind, SPEC_P,
-                                {"steps": (2, 30), "allow_empty_ts": True, "p_seed": 1.0}, rich=rs.chance(0.3), spec=spec)
+        e = C.make_script_entry(rs.sub(j), ru.sub(j), rk.sub(j), kind, spec_p, script_p, rich=rs.chance(0.3), spec=spec)
         if overlap and same_dims_spec is None:
             same_dims_spec = e["phys"]["spec"]
         scripts.append(e)
@@ -177,10 +178,10 @@ def generate(seed, tier, index):
         lifetimes.append({"pyseed": 1, "episodes": [
             {"obj": 0, "kind": kinds[j], "via": "LibRDEngine", "script": j,
              "ops": [["poison", 0], ["setup"], ["is_complete"], ["drive", [["iterate"]], CAP], ["is_complete"], ["output"],
-                     ["finalize"]]}]})
+                     ["observe"], ["iterate"], ["observe"], ["finalize"]]}]})
     eps, faults = gen_history(rf, nscripts, kinds, steps, overlap)
     lifetimes.append({"pyseed": rf.bits(30), "episodes": eps})
-    return {"format": 1, "property": ID, "seed": seed, "tier": tier, "index": index, "build": "plain",
+    return {"format": 1, "property": pid, "seed": seed, "tier": tier, "index": index, "build": "plain",
             "scripts": scripts, "lifetimes": lifetimes,
             "meta": {"overlap": overlap, "faults": faults, "nscripts": nscripts, "kinds": kinds}}
 
@@ -248,7 +249,13 @@ def check(case, results):
                          "op": 2, "detail": "is_complete() is True right after set-up of a fresh engine"})
         d = evs[3]
         if not d["done"] and case["scripts"][j]["phys"]["kind"] == "gillespie":
-            # an exact stochastic run has no step bound (e.g. autocatalytic growth): nothing is demanded here
+            # an exact stochastic run has no step bound (e.g. autocatalytic growth): nothing is demanded, unless the
+            # engine is stuck: a further iterate() that advances neither time nor completion can never terminate
+            if 6 in evs and 8 in evs and 7 in evs and "exc" not in evs[7] and evs[7]["ret"] is True \
+                    and evs[6]["t"] == evs[8]["t"] and evs[6]["x"] == evs[8]["x"]:
+                viol.append({"class": "violation", "oracle": "C10.completes", "lifetime": j, "episode": 0, "op": 7,
+                             "detail": "after %d iterate() calls a further call changes neither time nor state yet reports an "
+                                       "unfinished simulation: the loop of simulate() would never return" % d["nloop"]})
             stats["gillespie_longer_than_cap"] = stats.get("gillespie_longer_than_cap", 0) + 1
             continue
         if not d["done"]:
